@@ -331,6 +331,69 @@ def zero_boundary_oracle(case) -> Info:
 ZERO_CASES = [(B, k, seed, start) for B in (256, 1024, 4096, 32768, 65536) for k, seed, start in ((1, 1, 0), (2, 2, 3), (1, 3, 1))] + [(65536, 3, 9, 0), (16384, 4, 5, 0), (8192, 8, 6, 7)]
 
 
+# ---- the first FCS operation of a process -------------------------------------------------------------------------------------------
+import itertools  # noqa: E402
+
+_FIRST_OPS = ["static", "object", "isgood", "frame", "reader"]
+_FIRST_DATA = [b"", b"\x00", bytes.fromhex("a00801020110378d"), bytes(range(256)), b"123456789"]
+_FIRST_CASES = [(list(order), di) for order in itertools.permutations(_FIRST_OPS, 2) for di in range(len(_FIRST_DATA))] + [([op], di) for op in _FIRST_OPS for di in range(len(_FIRST_DATA))]
+
+_FIRST_PROGRAM = r"""
+import json, sys, logging
+logging.disable(logging.CRITICAL)
+order, data = json.loads(sys.argv[1]) if len(sys.argv) > 1 else (%r, bytes.fromhex(%r))
+data = data if isinstance(data, bytes) else bytes.fromhex(data)
+out = []
+for op in order:
+    try:
+        if op == "static":
+            from han.fastframecheck import FastFrameCheckSequence16 as F
+            out.append([op, F.compute_checksum(data, 0, len(data))])
+        elif op == "object":
+            from han.fastframecheck import FastFrameCheckSequence16 as F
+            o = F()
+            for b in data:
+                o.update(b)
+            out.append([op, o.checksum])
+        elif op == "isgood":
+            from han.fastframecheck import FastFrameCheckSequence16 as F
+            o = F()
+            for b in data + bytes.fromhex(%r):
+                o.update(b)
+            out.append([op, bool(o.is_good)])
+        elif op == "frame":
+            from han import hdlc
+            fr = hdlc.HdlcFrame()
+            for b in bytes.fromhex("a00801020110378d"):
+                fr.append(b)
+            out.append([op, bool(fr.is_good_ffc)])
+        elif op == "reader":
+            from han import hdlc
+            r = hdlc.HdlcFrameReader(False, False)
+            fs = r.read(bytes.fromhex("7ea00801020110378d7e"))
+            out.append([op, [bool(f.is_good_ffc) for f in fs]])
+    except Exception as exc:
+        out.append([op, "raised " + type(exc).__name__ + ": " + str(exc)[:80]])
+print("FRESH-RESULT " + json.dumps(out))
+"""
+
+
+def first_op_oracle(case) -> Info:
+    from vlib.freshproc import fresh_eval
+
+    order, di = list(case[0]), case[1]
+    data = _FIRST_DATA[di]
+    prog = _FIRST_PROGRAM % (order, data.hex(), fcs16_octets(data).hex())
+    got, err = fresh_eval(prog)
+    if got is None:
+        raise RuntimeError(f"fresh interpreter failed: {err}")
+    want = {"static": fcs16(data), "object": fcs16(data), "isgood": True, "frame": True, "reader": [True]}
+    for op, val in got:
+        if val != want[op]:
+            fail(f"in a fresh process, operation sequence {order} on data {data.hex() or '(empty)'}: '{op}' gave {val!r}, expected {want[op]!r} (the result of an FCS operation must not depend on which operation ran first)", sig=f"first-op-{op}")
+    return Info(nontrivial=True, classes=(f"first:{order[0]}",), sample={"order": order, "data": data.hex()})
+
+
 def build() -> Check:
     return Check(
         pid="C03",
@@ -360,6 +423,7 @@ def build() -> Check:
             HypClause("windows", _windows, window_oracle, quick=20000, thorough=1000000),
             HypClause("isgood", _isgood, isgood_oracle, quick=20000, thorough=1000000),
             EnumClause("zero-register-boundaries", size=lambda t: len(ZERO_CASES), case_at=lambda i, t: ZERO_CASES[i], oracle=zero_boundary_oracle, doc="windows up to 192 KiB whose register is 0x0000 after every 2^k octets", exhaustive=False),
+            EnumClause("first-operation", size=lambda t: len(_FIRST_CASES), case_at=lambda i, t: _FIRST_CASES[i], oracle=first_op_oracle, doc="fresh interpreter per case: every ordered pair (and single) of {static compute_checksum, object update/checksum, is_good, HdlcFrame check, reader} as the FIRST FCS operations of the process x 5 data values", exhaustive=False),
             HypClause("call-histories", history_st, lambda ops: history_oracle([tuple(o) for o in ops]), quick=10000, thorough=300000, doc="interleaved calls on bytes / in-place mutated bytearray buffers: no state may leak between calls"),
         ],
     )
